@@ -112,13 +112,17 @@ fn convert_frontend(v: &(Vec<(String, String)>, Vec<FMsg>), rep: &mut Rep) -> Re
     let built: Vec<DltMessage> = msgs.iter().enumerate().map(|(i, m)| m.build(i as u32)).collect();
     let fs: Vec<AF> = pairs
         .iter()
-        .map(|(a, c)| AF { kind: 0, enabled: true, negated: false, ecu: None, apid: Some(IdCrit::Lit(a.clone())), ctid: Some(IdCrit::Lit(c.clone())), mtype: None, level_min: None, level_max: None, payload: None, ignore_case: false, lifecycles: None, explicit_regex_flags: false })
+        // ("----" in the list stands for "any": an id given as "-" here is left out of the abstract filter)
+        .map(|(a, c)| AF { kind: 0, enabled: true, negated: false, ecu: None, apid: if a == "-" { None } else { Some(IdCrit::Lit(a.clone())) }, ctid: if c == "-" { None } else { Some(IdCrit::Lit(c.clone())) }, mtype: None, level_min: None, level_max: None, payload: None, ignore_case: false, lifecycles: None, explicit_regex_flags: false })
         .collect();
     let text: String = fs.iter().map(to_convert_format).collect();
     let filters = filters_from_convert_format(text.as_bytes()).map_err(|e| e.to_string())?;
     ensure_eq!(filters.len(), fs.len(), "number of filters loaded from dlt-convert format {:?}", text);
     for (filter, f) in filters.iter().zip(fs.iter()) {
-        ensure!(convert_expressible(f), "harness: not expressible");
+        rep.label_if(f.apid.is_none() || f.ctid.is_none(), "wildcard_id");
+        if f.apid.is_some() && f.ctid.is_some() {
+            ensure!(convert_expressible(f), "harness: not expressible");
+        }
         compare(filter, f, msgs, &built, rep, "dlt-convert format")?;
         roundtrip(filter, &built, "dlt-convert format")?;
     }
@@ -180,7 +184,7 @@ fn eac_frontend(v: &Vec<AF>, rep: &mut Rep) -> Result<(), String> {
 
 pub fn def(tier: Tier) -> PropertyDef {
     let msgs = || prop::collection::vec(fmsg(), 1..10);
-    let ids = || prop::sample::select(vec!["ECU1", "ECU2", "AB", "ABC", "A", "SYS", "ABCD", "ABCDE", "X"]).prop_map(|s| s.to_string());
+    let ids = || prop::sample::select(vec!["ECU1", "ECU2", "AB", "ABC", "A", "SYS", "ABCD", "ABCDE", "X", "-", "-"]).prop_map(|s| s.to_string());
     PropertyDef {
         id: "C11",
         rule: "M-FILTER: abstract filters (kind, enabled, negated, ecu/apid/ctid literal (short, full, over-long) or regex from a small grammar (anchored/unanchored atom sequences, '.', classes, alternation), type by mstp or verb_mstp_mtin, level min/max, payload literal/regex with ignore-case, lifecycles) x messages over a small id universe (with/without extended header, targeted+random type bytes, lifecycle 0..5, payload words in mixed case preset or decoded from a verbose string); reference matches() written from the statement; front-ends JSON, DLF XML, dlt-convert list (ECU:APID:CTID expressions are driven through the binary in C14); JSON round trip of every loaded filter. Non-trivial: >=2 criteria of which some but not all hold.",
